@@ -310,6 +310,8 @@ class Replayer:
             more = {"digest": self.family + ":" + ev["digest"], "lab": self.family} if "digest" in ev else None
             if more and "digest_reordered" in ev:
                 more["digest_reordered"] = self.family + ":" + ev["digest_reordered"]
+            if more and "digest_rebuilt" in ev:
+                more["digest_rebuilt"] = self.family + ":" + ev["digest_rebuilt"]
             if more and "digest_close" in ev:
                 more["digest_close"] = ev["digest_close"]
             self._log(oid, ev["op"], ev["ok"], queries=False, more=more)
